@@ -24,7 +24,12 @@ def run(R):
                      "(d) the u16 window arithmetic cannot wrap and the window end stays inside the framebuffer as seen under the address "
                      "mode, under I_init and in-bounds coordinates. Not decided: grouping of batched draw_iter pixels into windows (C03); "
                      "'last colour wins' follows from (a) plus the framing of C08 given the controller model.")
-    for cfg in R.configs:
+    R.parallel("C01", "task", [(cfg, q, m) for cfg in R.configs for (q, m) in D.ORIENTATIONS])
+
+
+def task(R, item):
+    cfg, q, m = item
+    for _case in (0,):
         F = R.facts(cfg)
         orders = {"CASET": C.ctor_order(R, F, D.CASET, 2, "C01", cfg), "RASET": C.ctor_order(R, F, D.RASET, 2, "C01", cfg)}
         if None in orders.values():
@@ -39,7 +44,7 @@ def run(R):
         R.ob("C01b-clear-is-default", "%s|clear" % cfg, not clear_overridden,
              "Display overrides DrawTarget::clear: it is no longer fill_solid(bounding_box) and is not covered")
         sx, sy, ex_, ey = [sym_int(n, 16, False) for n in ("sx", "sy", "ex", "ey")]
-        for (q, m) in D.ORIENTATIONS:
+        for _ori in (0,):
             otag = "%s|%ddeg%s" % (cfg, q * 90, "+mirror" if m else "")
             g = C.Geo(q, m)
             # in-bounds drawing (property quantifier) for the unchecked low-level entry
